@@ -4,4 +4,5 @@ package all
 import (
 	_ "verifsim/worlds/conn"
 	_ "verifsim/worlds/mesh"
+	_ "verifsim/worlds/twopc"
 )
